@@ -150,6 +150,32 @@ class _Subst(ast.NodeTransformer):
             return clone(self.env[n.id])
         return n
 
+    def visit_Call(self, n: ast.Call):
+        n = self.generic_visit(n)
+        # getattr(obj, "name") with a constant name IS obj.name
+        if isinstance(n.func, ast.Name) and n.func.id == "getattr" and len(n.args) == 2 and not n.keywords and isinstance(n.args[1], ast.Constant) and isinstance(n.args[1].value, str) and n.args[1].value.isidentifier():
+            return ast.copy_location(ast.Attribute(value=n.args[0], attr=n.args[1].value, ctx=ast.Load()), n)
+        return n
+
+    def visit_JoinedStr(self, n: ast.JoinedStr):
+        n = self.generic_visit(n)
+        # an f-string whose fields became constants is a constant
+        parts = []
+        for v in n.values:
+            if isinstance(v, ast.Constant) and isinstance(v.value, str):
+                parts.append(v.value)
+            elif isinstance(v, ast.FormattedValue) and isinstance(v.value, ast.Constant) and isinstance(v.value.value, (str, int)) and v.conversion == -1 and v.format_spec is None:
+                parts.append(str(v.value.value))
+            else:
+                return n
+        return ast.copy_location(ast.Constant(value="".join(parts)), n)
+
+    def visit_BinOp(self, n: ast.BinOp):
+        n = self.generic_visit(n)
+        if isinstance(n.op, ast.Add) and isinstance(n.left, ast.Constant) and isinstance(n.right, ast.Constant) and isinstance(n.left.value, str) and isinstance(n.right.value, str):
+            return ast.copy_location(ast.Constant(value=n.left.value + n.right.value), n)
+        return n
+
     def visit_Attribute(self, n: ast.Attribute):
         key = norm(n)
         if isinstance(n.ctx, ast.Load) and key in self.env:
@@ -170,6 +196,53 @@ class _Subst(ast.NodeTransformer):
 
 def subst(e: ast.expr, env: dict[str, ast.expr]) -> ast.expr:
     return _Subst(env).visit(clone(e))
+
+
+def fold_constants(t: ast.expr) -> ast.expr:
+    """Comparisons between constants and and/or/not over decided operands are replaced by their value."""
+
+    class F(ast.NodeTransformer):
+        def visit_Compare(self, n: ast.Compare):
+            n = self.generic_visit(n)
+            if len(n.ops) == 1 and isinstance(n.left, ast.Constant) and isinstance(n.comparators[0], ast.Constant):
+                a, b, op = n.left.value, n.comparators[0].value, n.ops[0]
+                try:
+                    v = {ast.Eq: a == b, ast.NotEq: a != b, ast.Is: a is b or (a == b and type(a) is type(b)), ast.IsNot: not (a is b or (a == b and type(a) is type(b)))}.get(type(op))
+                    if v is None and isinstance(op, (ast.Lt, ast.LtE, ast.Gt, ast.GtE)) and isinstance(a, (int, float)) and isinstance(b, (int, float)):
+                        v = {ast.Lt: a < b, ast.LtE: a <= b, ast.Gt: a > b, ast.GtE: a >= b}[type(op)]
+                except Exception:
+                    v = None
+                if v is not None:
+                    return ast.copy_location(ast.Constant(value=bool(v)), n)
+            if len(n.ops) == 1 and isinstance(n.ops[0], (ast.In, ast.NotIn)) and isinstance(n.left, ast.Constant) and isinstance(n.comparators[0], (ast.Tuple, ast.List, ast.Set)) and all(isinstance(e, ast.Constant) for e in n.comparators[0].elts):
+                v = n.left.value in [e.value for e in n.comparators[0].elts]
+                return ast.copy_location(ast.Constant(value=v if isinstance(n.ops[0], ast.In) else not v), n)
+            return n
+
+        def visit_UnaryOp(self, n: ast.UnaryOp):
+            n = self.generic_visit(n)
+            if isinstance(n.op, ast.Not) and isinstance(n.operand, ast.Constant) and isinstance(n.operand.value, bool):
+                return ast.copy_location(ast.Constant(value=not n.operand.value), n)
+            return n
+
+        def visit_BoolOp(self, n: ast.BoolOp):
+            n = self.generic_visit(n)
+            is_and = isinstance(n.op, ast.And)
+            vals = []
+            for v in n.values:
+                if isinstance(v, ast.Constant) and isinstance(v.value, bool):
+                    if v.value != is_and:  # False in and / True in or decides
+                        return ast.copy_location(ast.Constant(value=v.value), n)
+                    continue  # neutral element
+                vals.append(v)
+            if not vals:
+                return ast.copy_location(ast.Constant(value=is_and), n)
+            if len(vals) == 1:
+                return vals[0]
+            n.values = vals
+            return n
+
+    return F().visit(clone(t))
 
 
 def _unknown(name: str) -> ast.expr:
@@ -194,6 +267,7 @@ class Enumerator:
 
     def _known(self, t: ast.expr) -> Optional[bool]:
         """Truth value of a test that is decided by what was substituted into it."""
+        t = fold_constants(t)
         ct, pol = canon_test(t, True)
         if isinstance(ct, ast.Compare) and len(ct.ops) == 1 and isinstance(ct.ops[0], ast.Is) and isinstance(ct.comparators[0], ast.Constant) and ct.comparators[0].value is None:
             x = ct.left
@@ -333,7 +407,7 @@ class Enumerator:
             p.exit, p.exit_node = "break", st
             return [p]
         if isinstance(st, ast.If):
-            t = subst(st.test, p.env)
+            t = fold_constants(subst(st.test, p.env))
             p.note_calls(t, st)
             out = []
             known = self._known(t)
@@ -355,6 +429,37 @@ class Enumerator:
                 else:
                     p.effects.append(Effect("call", "with", subst(it.context_expr, p.env), st))
             return self.run(st.body, p)
+        if isinstance(st, ast.For) and not st.orelse:
+            it = subst(st.iter, p.env)
+            elts = None
+            if isinstance(it, (ast.Tuple, ast.List)) and len(it.elts) <= 16 and not any(isinstance(e, ast.Starred) for e in it.elts):
+                elts = list(it.elts)
+            nested_loops = any(isinstance(n, (ast.For, ast.While)) for b in st.body for n in ast.walk(b))
+            if elts is not None and not nested_loops:
+                # a loop over a literal tuple / list is the sequence of its iterations; `continue` ends
+                # one iteration, `break` the whole loop
+                paths = [p]
+                done: list[Path] = []
+                for e in elts:
+                    nxt = []
+                    for q in paths:
+                        if q.exit != "fall":
+                            done.append(q)
+                            continue
+                        self._bind(q, st.target, e, st)
+                        for r in self.run(st.body, q):
+                            if r.exit == "continue":
+                                r.exit, r.exit_node = "fall", None
+                                nxt.append(r)
+                            elif r.exit == "break":
+                                r.exit, r.exit_node = "fall", None
+                                done.append(r)
+                            else:
+                                nxt.append(r)
+                    paths = nxt
+                    if len(paths) + len(done) > self.max_paths:
+                        raise AnalysisError(f"path enumeration exceeds {self.max_paths} paths")
+                return paths + done
         if isinstance(st, (ast.For, ast.AsyncFor, ast.While)):
             p.effects.append(Effect("loop", norm(st.iter) if not isinstance(st, ast.While) else norm(st.test), None, st))
             for nm in _assigned(st.body + st.orelse) | ({n.id for n in ast.walk(st.target) if isinstance(n, ast.Name)} if not isinstance(st, ast.While) else set()):
